@@ -309,3 +309,78 @@ def general_dispatches(nodes) -> list[Dispatch]:
             if len(arms) >= 2:
                 out.append(Dispatch(n, first[0], arms, default))
     return out
+
+
+def _ends_control(body) -> bool:
+    if not body:
+        return False
+    last = body[-1]
+    if isinstance(last, (ast.Return, ast.Raise, ast.Continue, ast.Break)):
+        return True
+    if isinstance(last, ast.If):
+        return _ends_control(last.body) and _ends_control(last.orelse)
+    return False
+
+
+def _containing_list(n: ast.AST):
+    from sa.model import parent
+    p = parent(n)
+    if p is None:
+        return None
+    for fld in ("body", "orelse", "finalbody"):
+        lst = getattr(p, fld, None)
+        if isinstance(lst, list) and any(x is n for x in lst):
+            return lst
+    if isinstance(p, ast.Try):
+        for h in p.handlers:
+            if any(x is n for x in h.body):
+                return h.body
+    return None
+
+
+def guard_chains(nodes, test_fn) -> list[Dispatch]:
+    """`if s == "a": return X` / `if s == "b": return Y` / ... / <rest>:
+    consecutive guard clauses on one subject, each leaving the block; the
+    statements after the run are the default arm."""
+    out: list[Dispatch] = []
+    seen: set[int] = set()
+    for n in nodes:
+        if not isinstance(n, ast.If) or id(n) in seen or n.orelse:
+            continue
+        t = test_fn(n.test)
+        if t is None or not _ends_control(n.body):
+            continue
+        lst = _containing_list(n)
+        if lst is None:
+            continue
+        i = next(k for k, x in enumerate(lst) if x is n)
+        if i > 0 and isinstance(lst[i - 1], ast.If) and id(lst[i - 1]) in seen:
+            continue
+        subject = ast.unparse(t[0])
+        arms = []
+        j = i
+        while j < len(lst) and isinstance(lst[j], ast.If) and \
+                not lst[j].orelse and _ends_control(lst[j].body):
+            tj = test_fn(lst[j].test)
+            if tj is None or ast.unparse(tj[0]) != subject:
+                break
+            arms.append((tj[1], lst[j].body))
+            seen.add(id(lst[j]))
+            j += 1
+        if len(arms) >= 2:
+            out.append(Dispatch(n, t[0], arms, lst[j:] or None))
+    return out
+
+
+_literal_dispatches_core = literal_dispatches
+_general_dispatches_core = general_dispatches
+
+
+def literal_dispatches(nodes) -> list[Dispatch]:  # noqa: F811
+    nodes = list(nodes)
+    return _literal_dispatches_core(nodes) + guard_chains(nodes, _literal_test)
+
+
+def general_dispatches(nodes) -> list[Dispatch]:  # noqa: F811
+    nodes = list(nodes)
+    return _general_dispatches_core(nodes) + guard_chains(nodes, _general_test)
